@@ -18,6 +18,8 @@ class Versions:
         self.live = {}         # bytes -> description
         self.n = 0
         self.corrupt = {}      # side -> garbage bytes currently unreadable there
+        self.armed = {}        # side -> True: the engine's next download on that side fails once with a corrupt-read error (the stored bytes are fine)
+        self.reported = {}     # side -> bytes the provider once reported as unreadable (transient fault)
 
     def new(self, tag):
         self.n += 1
@@ -48,8 +50,33 @@ def install_corruption(lab, vs):
                 obj = _p._mock_fs.get(oid)
                 if obj is not None and obj.exists and _side in vs.corrupt and obj.contents == vs.corrupt[_side]:
                     raise CloudCorruptError("unreadable: %s" % oid)
+                if obj is not None and obj.exists and vs.armed.get(_side):
+                    # transient corrupt-read fault, placed at this download: this content is from now on 'reported as unreadable'
+                    vs.armed[_side] = False
+                    vs.reported[_side] = obj.contents
+                    if _lab_content_other(lab, _side, obj) != obj.contents:
+                        vs.live.pop(obj.contents, None)
+                    raise CloudCorruptError("unreadable (transient): %s" % oid)
             return _orig(oid, f)
         p.download = dl
+
+
+def _lab_content_other(lab, side, obj):
+    """content of the peer's file of the same relative name (None if absent)"""
+    rel = obj.path[len(lab.roots[side]):] if obj.path and obj.path.startswith(lab.roots[side]) else None
+    if rel is None:
+        return None
+    p = lab.p[1 - side]
+    o2 = p._mock_fs.get(p.normalize_path(lab.roots[1 - side] + rel)) if hasattr(p._mock_fs, "get") else None
+    try:
+        i = p.info_path(lab.roots[1 - side] + rel)
+    except Exception:
+        i = None
+    if not i or i.otype.value != "file":
+        return None
+    b = io.BytesIO()
+    lab.raw_download[1 - side](i.oid, b)
+    return b.getvalue()
 
 
 def user_op(lab, vs, side, op):
@@ -102,6 +129,12 @@ def user_op(lab, vs, side, op):
                 return ("noop", op)
             p.delete(i.oid)
             return ("rmdir", name)
+        if op == "corrupt-read":
+            # not a user operation: the placement of a transient corrupt-read fault at the engine's next download on this side
+            if cur is None or vs.corrupt or vs.armed or vs.reported:
+                return ("noop", op)
+            vs.armed[side] = True
+            return ("corrupt-read", name)
         if op == "corrupt":
             # the stored bytes of this side's copy become unreadable garbage (and its hash changes)
             if cur is None or side in vs.corrupt or vs.corrupt:
@@ -131,9 +164,9 @@ class GoodCopyUntouched:
 
     def after(self, h, which):
         vs = self.vs
-        if not vs.corrupt:
+        if not vs.corrupt and not vs.reported:
             return None
-        (cside, g), = vs.corrupt.items()
+        (cside, g), = (vs.corrupt or vs.reported).items()
         other = 1 - cside
         t = h.lab.tree(other)
         if any(v == g for v in t.values()):
@@ -158,17 +191,18 @@ def _factory(params, env=None):
         ops = [o for o in OPS if params.get("corrupt", True) or o != "corrupt"]
         try:
             first = params.get("first")
+            prefix = params.get("prefix") or ([first] if first else [])
             for k in range(params["nops"]):
-                if k == 0 and first:
-                    side, op = first
+                if k < len(prefix):
+                    side, op = prefix[k]
                 else:
-                    side = e.choose("side", 2)
+                    side = prefix[0][0] if params.get("same_side") else e.choose("side", 2)
                     op = ops[e.choose("op", len(ops))]
                 d = user_op(lab, vs, side, op)
                 h.hist.append((side,) + tuple(d))
                 if d[0] not in ("noop", "failed"):
                     h.real_ops += 1
-                h.slots(params["slots"])
+                h.slots(params["slotsper"][k] if params.get("slotsper") else params["slots"])
             try:
                 h.drain()
             except Fail:
@@ -312,6 +346,12 @@ def jobs(tier):
             for op in OPS:
                 out.append({"harness": "loss", "params": {"flavour": f, "base": b, "nops": n, "slots": sl, "first": [side, op]},
                             "label": "%s/base%d/%dops/%dslots/first=%d:%s" % (f, b, n, sl, side, op)})
+    # transient corrupt-read fault: a synchronised file is overwritten, the engine's first download of the new version fails once as unreadable,
+    # then one more operation on that side; the version reported unreadable must never replace the good copy on the peer
+    for f in (("oid", "path") if q else ("oid", "path", "mixed")):
+        for side in (0, 1):
+            out.append({"harness": "loss", "params": {"flavour": f, "base": 1, "nops": 3, "slots": 2, "slotsper": [0, 2, 2] if q else [0, 3, 2], "prefix": [[side, "write"], [side, "corrupt-read"]], "same_side": True},
+                        "label": "%s/base1/transient-corrupt-read/side%d" % (f, side)})
     for f in (("oid", "path") if q else ("oid", "path", "mixed")):
         for side in (0, 1):
             for op in OPS2:
@@ -328,7 +368,7 @@ def meta(tier):
                        "siblings count). Corrupt read: downloads of the unreadable bytes raise CloudCorruptError; the garbage must never appear on the other side and the good copy's "
                        "content must survive.",
         "bounds": {"operations": OPS, "length": "2 with 1 slot; 3 without slots (thorough: 2 with 2 slots, 3 with 1 slot)", "bases": "empty; /a synchronised", "flavours": "oid, path (thorough + mixed, case-insensitive)",
-                   "corrupt": "at most one copy becomes unreadable per history",
+                   "corrupt": "at most one copy becomes unreadable per history (persistent: the stored bytes rot; or transient: the engine's first download of a freshly written version fails once, placed right after the write, followed by one more operation on that side under 2+2 slots)",
                    "two-file family": "3 operations from %s on two synchronised files, after each nothing or one fair round of engine steps" % OPS2},
         "symbolic": ["side and operation of every step", "schedule slots"],
         "outside": ["more than one shared name", "custom resolvers (C05)", "longer histories"],
